@@ -740,6 +740,14 @@ func hammerFail(f string, a ...any) { util.Fail(fmt.Sprintf(f, a...)) }
 
 func runHammer(mode, rounds string) string {
 	n, _ := strconv.Atoi(rounds)
+	if r, w, e := os.Pipe(); e == nil { // the Go runtime opens its own epoll and event descriptors on first use: before counting
+		r.Close()
+		w.Close()
+	}
+	if warm, e := gnet.VerifDrainHammer(mode, 1); e != nil || warm.Left+warm.Open+warm.Unanswered > 0 {
+		// (the worker pool and everything else that is created once is created here; a failure is found again below)
+		_ = warm
+	}
 	before := countFds()
 	res, err := gnet.VerifDrainHammer(mode, n)
 	if err != nil {
@@ -795,8 +803,8 @@ func main() {
 		hist := map[string]int{}
 		if *only == "hammer" {
 			for i := 0; i < *cases; i++ {
-				m := []string{"loop", "accept0", "enroll"}[i%3]
-				rounds := map[string]int{"loop": 1500000, "accept0": 200000, "enroll": 100000}[m]
+				m := []string{"loop", "accept0", "enroll", "enrollctx"}[i%4]
+				rounds := map[string]int{"loop": 1500000, "accept0": 200000, "enroll": 100000, "enrollctx": 100000}[m]
 				hist["hammer-"+m]++
 				fmt.Fprintf(&b, "case %d\nhammer %s %d\n", i, m, rounds)
 			}
